@@ -1,4 +1,5 @@
 import Marwood.Lemmas.NumAccuracy
+import Marwood.Lemmas.NumAccuracyMul
 /-!
 # C08 — exact arithmetic is exact; inexactness is never silently dropped
 
@@ -274,6 +275,29 @@ theorem T08_2_sub_accuracy (a b : Num) (ha : a.WF = true) (hb : b.WF = true)
     ∃ v, val (sub a b) = some v ∧ |v - (x - y)| ≤ 2 ^ (-50 : Int) * max |x| (max |y| |x - y|) :=
   sub_inexact_accurate a b ha hb hea heb hx hy hmx hmy hM he
 
+/-- T08.2 (×), second conjunct — holds although the first conjunct does not: whenever a product of
+    exact operands (|x|, |y| < 2¹⁰²³, |x·y| < 2¹⁰²²) is answered inexactly, the answer is finite and
+    within 2⁻⁵⁰·max(|x|, |y|, |x·y|) of the exact product.  (Both operands are converted by `rnd`,
+    the double product is `rnd` of their exact product: three roundings.  No lower bound is needed:
+    a non-zero exact operand has magnitude ≥ 2⁻³¹, so only the last rounding can underflow, and its
+    absolute error 2⁻¹⁰⁷⁵ is below 2⁻⁵³·max(|x|, |y|); a zero operand gives a zero answer.) -/
+theorem T08_2_mul_accuracy (a b : Num) (ha : a.WF = true) (hb : b.WF = true)
+    (hea : isExact a = true) (heb : isExact b = true) {x y : Rat} (hx : val a = some x)
+    (hy : val b = some y) (hmx : |x| < 2 ^ (1023 : Int)) (hmy : |y| < 2 ^ (1023 : Int))
+    (hmp : |x * y| < 2 ^ (1022 : Int)) (he : isExact (mul a b) = false) :
+    ∃ v, val (mul a b) = some v ∧ |v - x * y| ≤ 2 ^ (-50 : Int) * max |x| (max |y| |x * y|) :=
+  mul_inexact_accurate a b ha hb hea heb hx hy hmx hmy hmp he
+
+/-- T08.2 (÷), second conjunct: whenever a quotient of exact operands (divisor non-zero,
+    |x|, |y| < 2¹⁰²³, |x/y| < 2¹⁰²²) is answered inexactly, the answer is finite and within
+    2⁻⁵⁰·max(|x|, |y|, |x/y|) of the exact quotient. -/
+theorem T08_2_div_accuracy (a b : Num) (ha : a.WF = true) (hb : b.WF = true)
+    (hea : isExact a = true) (heb : isExact b = true) {x y : Rat} (hx : val a = some x)
+    (hy : val b = some y) (hy0 : y ≠ 0) (hmx : |x| < 2 ^ (1023 : Int)) (hmy : |y| < 2 ^ (1023 : Int))
+    (hmq : |x / y| < 2 ^ (1022 : Int)) {r : Num} (h : div a b = .ok r) (he : isExact r = false) :
+    ∃ v, val r = some v ∧ |v - x / y| ≤ 2 ^ (-50 : Int) * max |x| (max |y| |x / y|) :=
+  div_inexact_accurate a b ha hb hea heb hx hy hy0 hmx hmy hmq h he
+
 /-! ### T08.5 — variadic `+ * −` -/
 
 /-- T08.5: the variadic procedures are folds of the binary operations, taken from the last
@@ -471,6 +495,30 @@ example : ∃ r, pow (.rat 2147483647 2) 2 = some r ∧ isExact r = false ∧
       _ ≤ _ := Fl.two_zpow_mono (by norm_num)
 -- the hypotheses of `T08_2_add_accuracy` are satisfiable: the witness of the finding itself
 example : isExact (add (.rat 1 2) (.rat 2147483647 2)) = false := by decide +kernel
+-- `T08_2_mul_accuracy` applies: `(* 2147483647/2 2147483647/3)` is answered by a double
+example : mul (.rat 2147483647 2) (.rat 2147483647 3) = .flo ⟨0x43a5555555000000⟩ := by
+  decide +kernel
+example : ∃ v, val (mul (.rat 2147483647 2) (.rat 2147483647 3)) = some v ∧
+    |v - (2147483647 / 2 : Rat) * (2147483647 / 3)| ≤ 2 ^ (-50 : Int) *
+      max |(2147483647 / 2 : Rat)| (max |(2147483647 / 3 : Rat)|
+        |(2147483647 / 2 : Rat) * (2147483647 / 3)|) := by
+  have hb : ∀ q : Rat, |q| < 2 ^ (62 : Int) → |q| < 2 ^ (1022 : Int) ∧ |q| < 2 ^ (1023 : Int) :=
+    fun q h => ⟨lt_of_lt_of_le h (Fl.two_zpow_mono (by norm_num)),
+      lt_of_lt_of_le h (Fl.two_zpow_mono (by norm_num))⟩
+  exact T08_2_mul_accuracy (.rat 2147483647 2) (.rat 2147483647 3) (by decide) (by decide) rfl rfl
+    (by norm_num [val]) (by norm_num [val]) (hb _ (by norm_num)).2 (hb _ (by norm_num)).2
+    (hb _ (by norm_num)).1 (by decide +kernel)
+-- `T08_2_div_accuracy` applies: `(/ 1099511627777 3)` (the dividend a bignum) is answered by a double
+example : div (.big 1099511627777) (.fix 3) = .ok (.flo ⟨0x4255555555556aab⟩) := by decide +kernel
+example : ∃ v, val (.flo ⟨0x4255555555556aab⟩) = some v ∧
+    |v - (1099511627777 : Rat) / 3| ≤ 2 ^ (-50 : Int) *
+      max |(1099511627777 : Rat)| (max |(3 : Rat)| |(1099511627777 : Rat) / 3|) := by
+  have hb : ∀ q : Rat, |q| < 2 ^ (62 : Int) → |q| < 2 ^ (1022 : Int) ∧ |q| < 2 ^ (1023 : Int) :=
+    fun q h => ⟨lt_of_lt_of_le h (Fl.two_zpow_mono (by norm_num)),
+      lt_of_lt_of_le h (Fl.two_zpow_mono (by norm_num))⟩
+  exact T08_2_div_accuracy (.big 1099511627777) (.fix 3) (by decide) (by decide) rfl rfl
+    (by norm_num [val]) (by norm_num [val]) (by norm_num) (hb _ (by norm_num)).2
+    (hb _ (by norm_num)).2 (hb _ (by norm_num)).1 (by decide +kernel) rfl
 -- the rounding facts speak about concrete doubles: 1/3 rounds to 0x3fd5555555555555
 example : Fl.rnd (1 / 3) = ⟨0x3fd5555555555555⟩ := by decide +kernel
 -- the guards of the `_partial` theorems are satisfiable on the boundary
